@@ -20,7 +20,11 @@ pub enum Task {
     /// encrypt `len` bytes, serve the chunks honestly, read back with data_get_public
     /// nested: the stored content is itself the serialised data map (root data-map chunk value) of another file of
     /// `len` bytes whose chunks are available too; it must read back as those bytes, not be followed
-    RoundTrip { len: usize, repetitive: bool, #[serde(default)] nested: bool },
+    /// via: how the data is read back - 0 data_get_public, 1 data_get (private data map), 2 file_download_public,
+    /// 3 file_download (private), 4 dir_download_public (an archive of this file and two small ones), 5 dir_download;
+    /// pre: state of the destination file before a download - 0 absent (parents too), 1 a longer file, 2 a shorter
+    /// file, 3 a file of the same length with other bytes
+    RoundTrip { len: usize, repetitive: bool, #[serde(default)] nested: bool, #[serde(default)] via: u8, #[serde(default)] pre: u8 },
     /// as RoundTrip, but the query for chunk number `victim` (0 = data map chunk) is answered
     /// `how`: 0 not found, 1 timeout, 2 another valid chunk of the same data, 3 a foreign valid
     /// chunk, 4 right bytes under the wrong record kind, 5 bytes that do not deserialise, 6 another valid chunk under its own key, 7 other content labelled with the requested address, 8 (root only) the data-map chunk of another file whose chunks are available
@@ -121,10 +125,12 @@ impl Sim for ClientSim {
         let task = match (ctx.property.as_str(), ctx.mode.as_str()) {
             ("C14", "nofault") => {
                 if rng.chance(1, 12) {
-                    Task::RoundTrip { len: rng.urange(0, 2), repetitive: false, nested: false }
+                    Task::RoundTrip { len: rng.urange(0, 2), repetitive: false, nested: false, via: 0, pre: 0 }
                 } else {
                     let nested = rng.chance(1, 10);
-                    Task::RoundTrip { len: interesting_len(rng, ctx.tier), repetitive: rng.chance(1, 3), nested }
+                    // a third of the round trips read back another way than data_get_public
+                    let via = if rng.chance(1, 3) { rng.range(1, 5) as u8 } else { 0 };
+                    Task::RoundTrip { len: interesting_len(rng, ctx.tier), repetitive: rng.chance(1, 3), nested, via, pre: rng.below(4) as u8 }
                 }
             }
             ("C14", _) => Task::DataWithFault { len: interesting_len(rng, ctx.tier), victim: rng.below(1 << 16) as u32, how: rng.below(2) as u8 },
@@ -200,7 +206,7 @@ impl Sim for ClientSim {
                 for l in [*len / 2, *len - 1] {
                     let mut p = plan.clone();
                     p.task = match &plan.task {
-                        Task::RoundTrip { nested, .. } => Task::RoundTrip { len: l, repetitive: false, nested: *nested },
+                        Task::RoundTrip { nested, via, pre, .. } => Task::RoundTrip { len: l, repetitive: false, nested: *nested, via: *via, pre: *pre },
                         Task::DataWithFault { victim, how, .. } => Task::DataWithFault { len: l, victim: *victim, how: *how },
                         t => t.clone(),
                     };
